@@ -8,6 +8,8 @@ import (
 	"fmt"
 	"os"
 	"strings"
+
+	"github.com/influxdata/influxdb/pkg/verifhook"
 	"testing"
 
 	"verifkit"
@@ -52,4 +54,52 @@ func TestVerifC10KFPiecewiseDelete(t *testing.T) {
 		os.RemoveAll(root)
 	}
 	stats.Sample(map[string]string{"history": "write t=1,t=10; snapshot; delete [1,1]; delete [10,10]"})
+}
+
+// Directed campaign for known finding delete-inside-snapshot-window: a delete that runs while a cache
+// snapshot is being written (here: from the snap.written hook) only reaches the hot cache; the points
+// already moved to the snapshot store are written to the new file untouched.
+func TestVerifC10KFDeleteInsideSnapshotWindow(t *testing.T) {
+	stats := verifkit.For("C10", "TestVerifC10KFDeleteInsideSnapshotWindow", "directed: 5 cached points, WriteSnapshot, a range delete of 3 of them issued from the snap.written hook (snapshot file written, not yet installed)")
+	defer stats.Flush()
+	root, _ := os.MkdirTemp("", "c10kfw")
+	defer os.RemoveAll(root)
+	b, err := vNewBed(root, "inmem", 1)
+	if err != nil {
+		t.Fatal(err)
+	}
+	defer b.close()
+	var pts []vPt
+	for i := 1; i <= 5; i++ {
+		pts = append(pts, vPt{M: "m0", Tags: map[string]string{"host": "a"}, Fields: map[string]vVal{"f0": vI(int64(i))}, TS: int64(i)})
+	}
+	if err := b.write(1, pts); err != nil {
+		t.Fatal(err)
+	}
+	b.applyWrite(1, pts)
+	sel := vSel{M: "m0", HasMin: true, Min: 2, HasMax: true, Max: 4}
+	fired := false
+	var derr error
+	verifhook.Set(func(ev, path string, n int64) {
+		if ev == "snap.written" && !fired {
+			fired = true
+			derr = b.deleteSeries(sel)
+		}
+	})
+	serr := b.snapshot(1)
+	verifhook.Set(nil)
+	if serr != nil || derr != nil || !fired {
+		t.Fatalf("snapshot err=%v delete err=%v hook fired=%v", serr, derr, fired)
+	}
+	b.applyDelete(sel)
+	got, err := b.readAll()
+	if err != nil {
+		t.Fatal(err)
+	}
+	stats.Case(true, fmt.Sprintf("points-after=%d", len(got)), "directed")
+	stats.Case(true, "model-points=2", "directed")
+	stats.Sample(map[string]interface{}{"model_points": len(b.model), "read_points": len(got)})
+	if len(got) > len(b.model) {
+		stats.KnownReproduced("delete-inside-snapshot-window", fmt.Sprintf("a completed range delete issued while the cache snapshot was being flushed left %d of 3 targeted points readable (also after the snapshot was installed)", len(got)-len(b.model)))
+	}
 }
